@@ -1,6 +1,7 @@
 package q
 
 import (
+	"fmt"
 	"reflect"
 )
 
@@ -22,11 +23,22 @@ func (e *CombineExpr) Evaluate(engine *Engine, input interface{}, args []*Statem
 		return nil, err
 	}
 
-	slice := reflect.MakeSlice(reflect.TypeOf(firstArg), 0, 0)
+	sliceType := reflect.TypeOf(firstArg)
+	if sliceType == nil || sliceType.Kind() != reflect.Slice {
+		return nil, fmt.Errorf("Combine can only be used on slices, not %v",
+			sliceType)
+	}
+
+	slice := reflect.MakeSlice(sliceType, 0, 0)
 	for _, arg := range args {
 		argValue, err := arg.Evaluate(engine, input)
 		if err != nil {
 			return nil, err
+		}
+
+		if reflect.TypeOf(argValue) != sliceType {
+			return nil, fmt.Errorf("Combine cannot mix %v and %v", sliceType,
+				reflect.TypeOf(argValue))
 		}
 
 		slice = reflect.AppendSlice(slice, reflect.ValueOf(argValue))
